@@ -36,9 +36,7 @@ theorem f5a_Pa : ∃ s1 s2, blockBody f5aEnv "P" "a" = some [.text s1, .blk "b",
 theorem f5a_Cb : ∃ s1 s2, blockBody f5aEnv "C" "b" = some [.text s1, .blk "a", .text s2] := ⟨_, _, rfl⟩
 theorem f5a_bodyP : ∃ s1 s2, bodyOfTpl f5aP = [.text s1, .blk "a", .text s2] := ⟨_, _, rfl⟩
 
-theorem andThen_fuel_left (k : Except RErr String) : andThen (.error .outOfFuel) k = .error .outOfFuel := rfl
-
-theorem andThen_text_fuel (s : String) : andThen (.ok s) (.error .outOfFuel) = .error .outOfFuel := rfl
+theorem andThen_fuel_left (k : Unit → Except RErr String) : andThen (.error .outOfFuel) k = .error .outOfFuel := rfl
 
 theorem f5a_cycle : ∀ (f : Nat),
     (∀ ctx s1 s2, ctx.view = "C" → run f5aEnv f ctx [.text s1, .blk "a", .text s2] = .error .outOfFuel) ∧
